@@ -188,8 +188,11 @@ Proof.
     assert (valid_ymd 10000 1 1 = true) as V1 by reflexivity.
     destruct (Z.eq_dec y 10000) as [->|Hne].
     - pose proof (doy_range 10000 m d V) as Hd.
-      unfold ymd2ord in *. change (days_before_month 10000 1) with 0 in *. clear - H0 E Hd. clearbody ord. lia.
-    - pose proof (ymd2ord_mono 10000 1 1 y m d V1 V (or_introl ltac:(lia))). lia. }
+      unfold ymd2ord in *. change (days_before_month 10000 1) with 0 in *. clear - H0 E Hd. destruct Hd as [Hd _]. revert H0 E Hd.
+      generalize (days_before_year 10000) (days_before_month 10000 m) ord. clear. intros. lia.
+    - assert (10000 < y) as Hlt by (clear - g Hne; lia).
+      pose proof (ymd2ord_mono 10000 1 1 y m d V1 V (or_introl Hlt)) as Hm.
+      clear - Hm E H0. lia. }
   unfold valid_dt. cbn [dyear dmonth dday dhour dminute dsecond dmicro]. rewrite V.
   unfold us_per_day in *. repeat (apply andb_true_intro; split); lia.
 Qed.
